@@ -61,11 +61,11 @@ theorem taLoop_cons (ext : Externals) (mods : List P11Module) (ttl : Int) (ksk :
           · simp [usablePk, hk, he]
           · simp only [usablePk, hk, he, Bool.false_eq_true, if_false, digestFor]
             cases h1 : publicKeyToDnssecKey pk ksk.label ksk.algorithm ttl 257 with
-            | error e => simp [bind_run, TokM.lift, bind, Except.bind]
+            | error e => simp [TokM.lift, bind, Except.bind]
             | ok key =>
               cases h2 : createTrustanchorKeydigest ext.hash ksk key with
-              | error e => simp [bind_run, TokM.lift, bind, Except.bind, h2]
-              | ok d => simp [bind_run, TokM.lift, bind, Except.bind, h2]
+              | error e => simp [TokM.lift, bind, Except.bind, h2]
+              | ok d => simp [TokM.lift, bind, Except.bind, h2]
 
 /-- **The lookups of one run**, in configuration order: for each configured KSK what
     `get_p11_key(label, public=True)` returned against this token at that point of the run. -/
@@ -253,9 +253,9 @@ theorem digestFor_ok {ext : Externals} {ttl : Int} {ksk : KskKey} {pk : String} 
     obtain ⟨hid, _, hfl, hpr, hal, hpk, r, hr, htag⟩ := publicKeyToDnssecKey_ok' hk
     obtain ⟨ha, pkb, hdec, hrd⟩ := keyToRdata_257 hfl hpr hr
     unfold createTrustanchorKeydigest at h
-    simp only [dn2wire, if_true, bind, Except.bind, pure, Except.pure, hr] at h
+    simp only [dn2wire, if_true, bind, Except.bind, pure, Except.pure, hr, List.cons_append, List.nil_append] at h
     unfold hashOrUnknown at h
-    cases hh : ext.hash .sha256 ([0] ++ r) with
+    cases hh : ext.hash .sha256 (0 :: r) with
     | none => simp [hh, unsupported] at h
     | some dg =>
       simp only [hh, pure, Except.pure, Except.ok.injEq] at h
@@ -348,34 +348,28 @@ theorem openSessions_emits (labels : List String) (m : P11Module) :
     refine Emits.bind (Emits.ask _ trivial) (fun o => ?_)
     split
     · exact ih _
-    · split
+    · dsimp only
+      split
       · exact ih _
       · refine Emits.bind (Emits.ask _ trivial) (fun l => ?_)
         split
         · exact ih _
         · exact ih _
 
+/-- one structural step of an `Emits (IsTaOp _)` proof -/
+macro "ta_step" : tactic => `(tactic| first
+  | exact Emits.pure _ | exact Emits.fail _ | exact Emits.err _ | exact Emits.lift _
+  | exact Emits.askOk _ trivial | exact Emits.ask _ trivial
+  | exact openSessions_emits _ _ _ _
+  | assumption
+  | refine Emits.bind ?_ (fun _ => ?_)
+  | split
+  | dsimp only)
+
 theorem init_emits (labels : List String) (label path : String) (pin soPin : Option String) (so rw : Bool)
     (typed : String) : Emits (IsTaOp labels) (P11Module.init label path pin soPin so rw typed) := by
-  unfold P11Module.init
-  refine Emits.bind (Emits.askOk _ trivial) (fun _ => ?_)
-  refine Emits.bind (Emits.askOk _ trivial) (fun _ => ?_)
-  refine Emits.bind (Emits.askOk _ trivial) (fun sl => ?_)
-  refine Emits.bind ?_ (fun slots => ?_)
-  · split
-    · exact Emits.pure _
-    · exact Emits.fail _
-  · dsimp only
-    split
-    · exact Emits.pure _
-    · refine Emits.bind ?_ (fun m => ?_)
-      · unfold P11Module.getSessions
-        split
-        · exact openSessions_emits labels _ _ _
-        · exact Emits.pure _
-      · split
-        · exact Emits.err _
-        · exact Emits.bind (Emits.askOk _ trivial) (fun _ => Emits.pure _)
+  unfold P11Module.init P11Module.getSessions
+  repeat' ta_step
 
 theorem initPkcs11Modules_emits (labels : List String) (all : List HsmConfig) (name : Option String)
     (typed : String) : ∀ l, Emits (IsTaOp labels) (initPkcs11Modules all name typed l) := by
@@ -398,7 +392,7 @@ theorem trustanchor_emits (ext : Externals) (args : TaArgs) (cfg : TaConfig) :
   refine Emits.bind (initPkcs11Modules_emits _ _ _ _ _) (fun mods => ?_)
   refine Emits.bind ?_ (fun ds => ?_)
   · have := taLoop_emits ext mods cfg.ttl (cfg.kskKeys.map (·.2)) []
-    simpa [List.map_map] using this
+    simpa [List.map_map, Function.comp_def] using this
   · dsimp only
     split
     · exact Emits.pure _
